@@ -108,12 +108,12 @@ Proof. intros. unfold be16j. pose proof (bytes_znth d o H). pose proof (bytes_zn
 
 Ltac rseg Hb B := eapply good_bind; [eapply good_weaken; [apply good_read_segment'; exact Hb|B|intros a Ha; exact Ha]|].
 
-Lemma frame_S_nonneg : forall m fuel bs, bytes bs -> 0 <= frame_S m fuel bs.
+Lemma frame_S_nonneg : forall fuel bs, bytes bs -> 0 <= frame_S fuel bs.
 Proof.
-  intros m fuel. induction fuel as [|k IH]; intros bs Hb; cbn [frame_S]; [lia|].
+  induction fuel as [|k IH]; intros bs Hb; cbn [frame_S]; [lia|].
   destruct (read_marker bs) as [[mk r]| | |] eqn:EM; try lia.
   destruct (read_marker_ok _ _ _ EM) as [_ Hbb]. destruct (Hbb Hb) as [Hr _].
-  destruct (mk =? m).
+  destruct (is_sof mk).
   { apply sof_S_nonneg. unfold seg_data. destruct r as [|a [|b r']]; try constructor.
     inversion Hr as [|? ? ? Hr']; subst. inversion Hr'; subst. apply bytes_firstn; auto. }
   destruct ((mk =? 218) || (mk =? 217)); [lia|].
@@ -203,7 +203,7 @@ Proof.
 Qed.
 
 Lemma jll_loop_good : forall fuel st bs Sx, bytes bs -> JInv st -> (length bs < fuel)%nat -> 0 <= Sx ->
-  (jframeless st = true -> frame_S 195 fuel bs <= Sx) -> (jframeless st = false -> jframeS st <= Sx) ->
+  (jframeless st = true -> frame_S fuel bs <= Sx) -> (jframeless st = false -> jframeS st <= Sx) ->
   aloopP Sx 8 bs (jll_loop fuel st bs).
 Proof.
   induction fuel as [|k IH]; intros st bs Sx Hb HI Hf HS H1 H2; [lia|].
@@ -215,7 +215,8 @@ Proof.
   assert (Hzl : zlen r <= zlen bs) by (unfold zlen; lia).
   pose proof (zlen_nonneg bs) as Hz0.
   destruct (m =? 195) eqn:E195.
-  { eapply aloopP_bind; [apply jll_sof3_good; auto|nia|].
+  { assert (Hs : is_sof m = true) by (apply Z.eqb_eq in E195; subst m; reflexivity). rewrite Hs in H1.
+    eapply aloopP_bind; [apply jll_sof3_good; auto|nia|].
     intros [st' rest] ((P1 & P2 & P3 & P4) & F0 & F1 & F2). cbn [fst snd] in *.
     eapply aloopP_mono with (S' := Sx) (bs' := rest); [lia|lia|unfold zlen; lia|].
     apply IH; auto; [lia| |].
@@ -236,6 +237,7 @@ Proof.
     eapply aloopP_bind; [apply jll_scan_allocs_good; exact P1| |intros _ _; apply aloopP_ret].
     unfold jframeS in HfS. assert (zlen rest <= zlen bs) by (unfold zlen; lia). lia. }
   destruct (m =? 217) eqn:E217; [apply aloopP_err|].
+  revert H1. destruct (is_sof m) eqn:ESOF; intros H1; [apply aloopP_err|].
   cbn [orb] in H1.
   destruct (has_length m) eqn:EL.
   { eapply aloopP_bind; [eapply good_weaken; [apply good_read_segment'; exact Hr|apply Z.le_refl|intros a Ha; exact Ha]|nia|].
@@ -246,13 +248,13 @@ Proof.
   apply IH; auto. lia.
 Qed.
 
-Lemma jll_decode_aloopP : forall bs, bytes bs -> aloopP (frame_declared 195 bs) 8 bs (jll_decode (fuel_of bs) bs).
+Lemma jll_decode_aloopP : forall bs, bytes bs -> aloopP (frame_declared bs) 8 bs (jll_decode (fuel_of bs) bs).
 Proof.
   intros bs Hb. unfold jll_decode, frame_declared.
   destruct (read_marker bs) as [[m r]| | |] eqn:EM; try apply aloopP_err.
   destruct (read_marker_ok _ _ _ EM) as [Hl Hbb]. destruct (Hbb Hb) as [Hr Hm].
   destruct (m =? 216); [|apply aloopP_err].
-  eapply aloopP_mono with (S' := frame_S 195 (fuel_of bs) r) (bs' := r); [lia|lia|unfold zlen; lia|].
+  eapply aloopP_mono with (S' := frame_S (fuel_of bs) r) (bs' := r); [lia|lia|unfold zlen; lia|].
   apply jll_loop_good; auto.
   - apply JInv0.
   - unfold fuel_of; lia.
@@ -267,7 +269,7 @@ Proof. intros bs Hb. apply (jll_decode_aloopP bs Hb). Qed.
 Theorem jll_decode_fuel : forall bs, bytes bs -> fst (jll_decode (fuel_of bs) bs) <> OutOfFuel.
 Proof. intros bs Hb. apply (jll_decode_aloopP bs Hb). Qed.
 Theorem jll_decode_alloc : forall bs, bytes bs ->
-  Forall (fun a => a <= 8 * frame_declared 195 bs + 2 * zlen bs + 65536) (snd (jll_decode (fuel_of bs) bs)).
+  Forall (fun a => a <= 8 * frame_declared bs + 2 * zlen bs + 65536) (snd (jll_decode (fuel_of bs) bs)).
 Proof. intros bs Hb. apply (jll_decode_aloopP bs Hb). Qed.
 
 (* ---------- jpeg/lossless14sv1 ---------- *)
@@ -379,7 +381,7 @@ Proof.
 Qed.
 
 Lemma sv1_loop_good : forall fuel st bs Sx, bytes bs -> JInv st -> (length bs < fuel)%nat -> 0 <= Sx ->
-  (jframeless st = true -> frame_S 195 fuel bs <= Sx) -> (jframeless st = false -> jframeS st <= Sx) ->
+  (jframeless st = true -> frame_S fuel bs <= Sx) -> (jframeless st = false -> jframeS st <= Sx) ->
   aloopP Sx 8 bs (sv1_loop fuel st bs).
 Proof.
   induction fuel as [|k IH]; intros st bs Sx Hb HI Hf HS H1 H2; [lia|].
@@ -391,7 +393,8 @@ Proof.
   assert (Hzl : zlen r <= zlen bs) by (unfold zlen; lia).
   pose proof (zlen_nonneg bs) as Hz0.
   destruct (m =? 195) eqn:E195.
-  { destruct (jframeless st) eqn:Efl.
+  { assert (Hs : is_sof m = true) by (apply Z.eqb_eq in E195; subst m; reflexivity). rewrite Hs in H1.
+    destruct (jframeless st) eqn:Efl.
     - specialize (H1 eq_refl).
       eapply aloopP_bind; [apply sv1_sof3_good; auto|nia|].
       intros [st' rest] ((P1 & P2 & P3 & P4) & F0 & F1 & F2 & F3). cbn [fst snd] in *.
@@ -420,6 +423,7 @@ Proof.
     intros _ _. eapply aloopP_bind; [apply sv1_out_alloc_good; auto|lia|intros _ _; apply aloopP_ret]. }
   destruct (m =? 217) eqn:E217.
   { eapply aloopP_bind; [apply sv1_out_alloc_good; auto|lia|intros _ _; apply aloopP_ret]. }
+  revert H1. destruct (is_sof m) eqn:ESOF; intros H1; [apply aloopP_err|].
   cbn [orb] in H1.
   destruct (has_length m) eqn:EL.
   { eapply aloopP_bind; [eapply good_weaken; [apply good_read_segment'; exact Hr|apply Z.le_refl|intros a Ha; exact Ha]|nia|].
@@ -430,13 +434,13 @@ Proof.
   apply IH; auto. lia.
 Qed.
 
-Lemma sv1_decode_aloopP : forall bs, bytes bs -> aloopP (frame_declared 195 bs) 8 bs (sv1_decode (fuel_of bs) bs).
+Lemma sv1_decode_aloopP : forall bs, bytes bs -> aloopP (frame_declared bs) 8 bs (sv1_decode (fuel_of bs) bs).
 Proof.
   intros bs Hb. unfold sv1_decode, frame_declared.
   destruct (read_marker bs) as [[m r]| | |] eqn:EM; try apply aloopP_err.
   destruct (read_marker_ok _ _ _ EM) as [Hl Hbb]. destruct (Hbb Hb) as [Hr Hm].
   destruct (m =? 216); [|apply aloopP_err].
-  eapply aloopP_mono with (S' := frame_S 195 (fuel_of bs) r) (bs' := r); [lia|lia|unfold zlen; lia|].
+  eapply aloopP_mono with (S' := frame_S (fuel_of bs) r) (bs' := r); [lia|lia|unfold zlen; lia|].
   apply sv1_loop_good; auto.
   - apply JInv0.
   - unfold fuel_of; lia.
@@ -452,5 +456,5 @@ Proof. intros bs Hb. apply (sv1_decode_aloopP bs Hb). Qed.
 (* F44: SV1 allocates while parsing SOF3; since a second SOF3 is rejected the requests are bounded
    by the unique frame header (historical witness: SOF3 65535x65535, SOF3 1x1, EOI) *)
 Theorem sv1_decode_alloc : forall bs, bytes bs ->
-  Forall (fun a => a <= 8 * frame_declared 195 bs + 2 * zlen bs + 65536) (snd (sv1_decode (fuel_of bs) bs)).
+  Forall (fun a => a <= 8 * frame_declared bs + 2 * zlen bs + 65536) (snd (sv1_decode (fuel_of bs) bs)).
 Proof. intros bs Hb. apply (sv1_decode_aloopP bs Hb). Qed.
